@@ -442,6 +442,14 @@ class Machine(object):
                 ctx.fail("badctor-accepted", "op")
             except Exception:
                 pass             # refused; the program goes on inside the same context
+            if not self.cplx:
+                from quantarhei.qm import SuperOperator
+                try:
+                    SuperOperator(data=numpy.zeros((2, 2, 2)))
+                    ctx.fail("badctor-accepted", "sop")
+                except Exception:
+                    pass
+                SuperOperator()      # an empty superoperator that never receives data
         elif s == "raise":
             if len(self.T) > 1:
                 raise Abort(stm["levels"])
